@@ -55,16 +55,19 @@ def toInt64 (x : Nat) : Int :=
 def errDuplicateRemove : String := "duplicate-remove"
 def errNegativeTimestamp : String := "negative-timestamp"
 
+/-- the body of the `StreamValues` loop of `Encode`: nil values are skipped -/
+def encValueOpt (e : Nat × Option SV) : Option (Nat × Option SVMsg) :=
+  match e.2 with
+  | none => none
+  | some v => some (e.1, some (makeSVMsg v))
+
 /-- `protoObservationCodec.Encode` up to `proto.Marshal` (nil stream values are skipped) -/
 def obsToMsg (σ : ObsSched) (o : ObsE) : GoRes ObsMsg :=
   .ok { attested := o.attested, shouldRetire := o.shouldRetire,
         tsLegacy := toInt64 o.ts, ts := o.ts,
         removes := σ.removes o.removes,
         updates := GoMap.ofList (σ.updates o.updates),
-        values := GoMap.ofList ((σ.values o.values).filterMap fun e =>
-          match e.2 with
-          | none => none
-          | some v => some (e.1, some (makeSVMsg v))) }
+        values := GoMap.ofList ((σ.values o.values).filterMap encValueOpt) }
 
 /-- the duplicate check of the `RemoveChannelIDs` loop: `seen` is the set built so far -/
 def removesFromMsg : List Nat → List Nat → GoRes (List Nat)
